@@ -33,6 +33,7 @@ func init() {
 		EnumRule:    "obligations per rule and construct (closure function / call site / integer type / marker)",
 		Assumptions: []string{"the Go compiler's escape analysis (the toolchain in this sandbox) is the authority for boxing and address-taken locals", "exact output text is not decided"},
 		Controls: []Control{
+			{Name: "return before the surplus loop", File: "kernel/kfmt/fmt.go", Old: "\t// Check for unused args\n", New: "\tif blockStart == blockEnd && len(format) > 0 {\n\t\treturn\n\t}\n\t// Check for unused args\n", Expect: "C15.R4 surplus-args"},
 			{Name: "literal text ranged over as runes", File: "kernel/kfmt/fmt.go", Old: "\t\t\tfor i := blockStart; i < blockEnd; i++ {\n\t\t\t\tsingleByte[0] = format[i]\n\t\t\t\tdoWrite(w, singleByte)\n\t\t\t}\n\t\t}\n\n\t\t// Scan til", New: "\t\t\tfor _, ch := range format[blockStart:blockEnd] {\n\t\t\t\tsingleByte[0] = byte(ch)\n\t\t\t\tdoWrite(w, singleByte)\n\t\t\t}\n\t\t}\n\n\t\t// Scan til", Expect: "C15.R4"},
 			{Name: "[]byte(format[a:b]) in Fprintf", File: "kernel/kfmt/fmt.go", Old: "\t\t\tfor i := blockStart; i < blockEnd; i++ {\n\t\t\t\tsingleByte[0] = format[i]\n\t\t\t\tdoWrite(w, singleByte)\n\t\t\t}\n\t\t}\n\n\t\t// Scan til", New: "\t\t\tdoWrite(w, []byte(format[blockStart:blockEnd]))\n\t\t}\n\n\t\t// Scan til", Expect: "C15.R1"},
 			{Name: "fmt.Sprint call in fmtBool", File: "kernel/kfmt/fmt.go", Old: "\tdefault:\n\t\tdoWrite(w, errWrongArgType)\n\t\treturn\n\t}\n}", New: "\tdefault:\n\t\tdoWrite(w, []byte(error(nil).Error()))\n\t\treturn\n\t}\n}", Expect: "C15.R1"},
@@ -721,8 +722,11 @@ func runC15(c *Ctx) {
 					for b := range lf.Body {
 						surplusRegion[b] = true
 					}
-					for _, pb := range lf.Header.Preds {
-						surplusRegion[pb] = true
+					// (a rotated loop is entered through a guard that sits in the block before it)
+					if !(lf.Exit >= 0 && gf.Ins[lf.Exit].Block() == lf.Header) {
+						for _, pb := range lf.Header.Preds {
+							surplusRegion[pb] = true
+						}
 					}
 				}
 			}
